@@ -30,6 +30,12 @@ with concurrent.futures.ThreadPoolExecutor(max_workers=6) as ex:
         other=[p for p,rc in res.items() if rc not in (0,1)]
         out[sid]={'caught_by':{p:rules[p] for p in caught},'exit2':other}
         print(f"{sid}: own check {'CATCHES' if own in caught else 'MISSES '}; caught by {', '.join(p+str(rules[p]) for p in caught) or '-'}"+(f"; exit2: {other}" if other else ''))
-json.dump(out,open('/verif/seeded/MATRIX.json','w'),indent=1)
+if flt:
+    try:
+        old=json.load(open('/verif/seeded/MATRIX.json'))
+    except Exception:
+        old={}
+    old.update(out); out=old
+json.dump(dict(sorted(out.items())),open('/verif/seeded/MATRIX.json','w'),indent=1)
 miss=[s for s,v in out.items() if s.split('-')[0] not in v['caught_by']]
 print("seeds:",len(out)," missed by own check:",miss)
